@@ -1504,6 +1504,15 @@ ws_listener_stop(void *arg)
 	while (!nni_list_empty(&l->reply)) {
 		nni_cv_wait(&l->cv);
 	}
+	// Connections that completed the upgrade but were never accepted
+	// belong to nobody else: release them.
+	{
+		nni_ws *ws;
+		while ((ws = nni_list_first(&l->pend)) != NULL) {
+			nni_list_remove(&l->pend, ws);
+			ws_reap(ws);
+		}
+	}
 	h          = l->handler;
 	s          = l->server;
 	l->handler = NULL;
